@@ -134,8 +134,11 @@ def strip(p):
     return {"rows": p["rows"], "cols": p["cols"]}
 
 
-def table_history(seed: int, nsteps: int = 12) -> list:
-    """One recorded history of a real Table."""
+def table_history(seed: int, nsteps: int = 12, with_clone: bool = False) -> list:
+    """One recorded history of a real Table.  With with_clone, the table is
+    cloned at a random step (caches warmed by the reads before it) and the
+    history continues on both objects in a random interleaving; every event
+    then also records what the object NOT acted upon looks like (C10)."""
     from odfdo import Element, Table
 
     rng = random.Random(seed)
@@ -146,10 +149,31 @@ def table_history(seed: int, nsteps: int = 12) -> list:
         table = Table("T", width=rng.randint(1, 4), height=rng.randint(1, 4))
     else:
         table = tl.build_table(rand_state(rng), rng.choice(("max", "none", "rand")), rng)
-    pre = tl.xml_project(table.serialize())
-    state = strip(pre)
+    objs = {"a": table}
+    states = {"a": strip(tl.xml_project(table.serialize()))}
+    clone_at = rng.randint(0, max(0, nsteps - 3)) if with_clone else -1
     events = []
-    for _ in range(nsteps):
+    for step in range(nsteps):
+        if step == clone_at:
+            tl.live_reads(objs["a"], [k for k in tl.READ_KINDS if rng.random() < 0.5])
+            ev = {"kind": "table", "op": {"op": "clone"}}
+            if not events:
+                ev["pre"] = states["a"]
+            try:
+                objs["b"] = objs["a"].clone
+                ev["twin"] = strip(tl.xml_project(objs["b"].serialize()))
+            except Exception as ex:  # noqa: BLE001
+                ev["exc"] = type(ex).__name__
+                ev["twin"] = states["a"]
+            ev["post"] = strip(tl.xml_project(objs["a"].serialize()))
+            states["b"] = ev["twin"]
+            events.append(ev)
+            if "exc" in ev:
+                break
+            continue
+        side = rng.choice(sorted(objs))
+        table = objs[side]
+        state = states[side]
         # cache-filling reads before the mutation
         kinds = [k for k in tl.READ_KINDS if rng.random() < 0.3]
         try:
@@ -157,11 +181,13 @@ def table_history(seed: int, nsteps: int = 12) -> list:
         except Exception:  # noqa: BLE001, S110
             pass
         o = rand_op(rng, state)
-        if o["op"] == "optimize_width" and events and events[-1]["op"]["op"] == "optimize_width":
+        if o["op"] == "optimize_width" and events and events[-1]["op"]["op"] == "optimize_width" and events[-1].get("side", "a") == side:
             o["again"] = 1
         if o["op"] == "csv" and (len(state["cols"]) < 2 or not state["rows"]):
             o = {"op": "optimize_width"}
         ev = {"kind": "table", "op": o}
+        if "b" in objs:
+            ev["side"] = side
         if not events:
             ev["pre"] = state
         try:
@@ -175,6 +201,9 @@ def table_history(seed: int, nsteps: int = 12) -> list:
         proj = tl.xml_project(xml)
         ev["post"] = strip(proj)
         ev["bad"] = sorted(set(proj["bad"]))
+        if "b" in objs:
+            other = objs["b" if side == "a" else "a"]
+            ev["other"] = strip(tl.xml_project(other.serialize()))
         post_kinds = [k for k in tl.READ_KINDS if rng.random() < 0.6]
         try:
             ev["live"] = tl.live_reads(table, post_kinds)
@@ -186,7 +215,7 @@ def table_history(seed: int, nsteps: int = 12) -> list:
             except Exception as ex:  # noqa: BLE001
                 ev["exc"] = "fresh:" + type(ex).__name__
         events.append(ev)
-        state = ev["post"]
+        states[side] = ev["post"]
         if "exc" in ev:
             break  # object possibly inconsistent: stop this history
     return events
@@ -238,16 +267,20 @@ def _row_project(row) -> list:
 
 def _gen(args):
     kind, seed, n = args
+    if kind == "clone":
+        return table_history(seed, n, with_clone=True)
     return table_history(seed, n) if kind == "table" else row_history(seed, n)
 
 
-def generate(ntraces: int, seed: int, nsteps: int = 12, row_share: float = 0.25, procs=None, ops=None) -> list:
+def generate(ntraces: int, seed: int, nsteps: int = 12, row_share: float = 0.25, procs=None, ops=None, clones: bool = False) -> list:
     global OPS
     OPS = list(ops) if ops else list(ALL_OPS)
     procs = procs or min(16, os.cpu_count() or 4)
     jobs = []
     for i in range(ntraces):
         kind = "row" if (i % 100) < row_share * 100 else "table"
+        if clones:
+            kind = "clone"
         jobs.append((kind, seed * 1_000_003 + i, nsteps))
     with mp.get_context("fork").Pool(procs) as pool:
         traces = pool.map(_gen, jobs, chunksize=max(1, ntraces // (procs * 4)))
